@@ -6,7 +6,9 @@ package validation_test
 // signer accounts; changing any byte of the signed content, any signature, or
 // the payer makes it rejected.
 //
-// Seam: types.TransactionFromRawBytes -> validation.VerifyTransaction.
+// Seam: types.TransactionFromRawBytes -> validation.VerifyTransaction, on the
+// freshly decoded object and in every state the object can be driven into
+// before it reaches the validator (C16_routes_test.go).
 // Oracle: c16Oracle below — an independent verifier (own hash computation, own
 // payer extraction, own canonical-script/address derivation, each signature
 // checked with ontology-crypto directly, m DISTINCT keys by value).
@@ -251,6 +253,9 @@ type c16Case struct {
 	Must string `json:"must,omitempty"` // non-empty: statement requires rejection; value is the violation key if accepted
 	Tag  string `json:"tag"`            // case class used in violation keys
 	Note string `json:"note,omitempty"`
+	// Route: filled in reported cases only — the operations applied to the decoded object before the
+	// judged VerifyTransaction call (replay explores all routes again)
+	Route string `json:"route,omitempty"`
 }
 
 // c16Accepts runs the real decode + validator.
@@ -288,12 +293,19 @@ func c16Eval(r *vh.Run, c c16Case, cls string, withOracleOnReject bool) (accepte
 	raw := c1617Unhex(c.Raw)
 	tag := c.Tag
 	r.Eval(1)
-	acc, stage, p := c16Accepts(raw)
+	// the freshly decoded object and every state the object can be driven into (C16_routes_test.go)
+	g := c16ExploreObject(raw)
+	acc, stage, p := false, g.DecodeStage, ""
+	if len(g.Verdicts) > 0 {
+		acc, stage, p = g.Verdicts[0].Acc, g.Verdicts[0].Stage, g.Verdicts[0].Panic
+	}
 	if p != "" {
 		r.Violationf("panic:"+tag, c, "%s: validator panicked: %s", c.Name, p)
 		return false
 	}
-	if !acc {
+	freshKey := ""
+	switch {
+	case !acc:
 		if withOracleOnReject {
 			if ok, _ := c16Oracle(raw); ok {
 				r.Class("rejected-though-oracle-accepts:" + cls) // stricter than the statement: allowed
@@ -303,19 +315,22 @@ func c16Eval(r *vh.Run, c c16Case, cls string, withOracleOnReject bool) (accepte
 		} else {
 			r.Class("rejected:" + stage)
 		}
-		return false
+	default:
+		ok, why := c16Oracle(raw)
+		if !ok {
+			freshKey = "accepted:" + why + ":" + tag
+			r.Violationf(freshKey, c, "%s: VerifyTransaction accepted, independent verifier rejects (%s)", c.Name, why)
+		} else if c.Must != "" {
+			freshKey = c.Must
+			r.Violationf(freshKey, c, "%s: VerifyTransaction still accepts after a change the statement says must be rejected (%s)", c.Name, c.Note)
+		} else {
+			r.Class("accepted:" + cls)
+		}
 	}
-	ok, why := c16Oracle(raw)
-	if !ok {
-		r.Violationf("accepted:"+why+":"+tag, c, "%s: VerifyTransaction accepted, independent verifier rejects (%s)", c.Name, why)
-		return true
+	if g.DecodeStage == "" {
+		c16JudgeRoutes(r, c, &g, acc, freshKey)
 	}
-	if c.Must != "" {
-		r.Violationf(c.Must, c, "%s: VerifyTransaction still accepts after a change the statement says must be rejected (%s)", c.Name, c.Note)
-		return true
-	}
-	r.Class("accepted:" + cls)
-	return true
+	return acc
 }
 
 func c16SigByteClass(kind string, pos, n int) string {
@@ -663,8 +678,9 @@ func TestVerif_C16(t *testing.T) {
 	log.InitLog(log.FatalLog)
 	r := vh.Start(t, "C16", "sigcheck")
 	defer r.Finish()
-	r.Rule("correctly signed base transactions (1/2/16 signature sets x single P-256/SM2/Ed25519/Ethereum-type/P-224 keys, 1-of-2, 2-of-3, mixed 2-of-3 and 3-of-4, 16-of-16) x every single-byte change {^1,0x00,0xFF} at every offset, plus structural changes (drop/duplicate/reorder signatures, same signer or same key twice, replaced key/payer, m in {0,n+1}, n=17, 0/16/17 sets, broken second set); each is decoded and validated by the real code; an accepted transaction must be accepted by an independent verifier (own hash, m distinct keys by value, payer among signer accounts) and changes to signed content, a signature or the payer must be rejected; distinct = (verdict, stage or oracle reason, byte region / structural class)")
+	r.Rule("correctly signed base transactions (1/2/16 signature sets x single P-256/SM2/Ed25519/Ethereum-type/P-224 keys, 1-of-2, 2-of-3, mixed 2-of-3 and 3-of-4, 16-of-16) x every single-byte change {^1,0x00,0xFF} at every offset, plus structural changes (drop/duplicate/reorder signatures, same signer or same key twice, replaced key/payer, m in {0,n+1}, n=17, 0/16/17 sets, broken second set); each is decoded by the real code and the decoded OBJECT is driven, by explicit-state search to closure, into every state reachable through its argument-less public operations and the validator (GetSignatureAddresses, VerifyTransaction, Hash/ToArray/Serialization/Cost, IntoMutable->IntoImmutable); VerifyTransaction is evaluated in every reachable state; whatever it accepts in any state must be accepted by an independent verifier (own hash, m distinct keys by value, payer among signer accounts) on the object's bytes, and changes to signed content, a signature or the payer must be rejected in every state; distinct = (verdict, stage or oracle reason, byte region / structural class) for the fresh object, (object state, verdict) for the others")
 	r.Assume("ECDSA/SM2 signing is randomised; only accept/reject is observed. Decoding into signature scripts (C19) and ontology-crypto's Verify are trusted by the oracle.")
+	r.Assume("object states are compared on the projection (header fields, payer, hash, raw bytes, signature scripts, SignedAddr as sorted multiset + nil-ness): every field of types.Transaction that is exported or readable through a method; successors are computed on a copy of the object")
 
 	var rc c16Case
 	if r.ReplayCase(&rc) && rc.Raw != "" {
@@ -694,7 +710,7 @@ func TestVerif_C16(t *testing.T) {
 		specs = append(specs, c16BaseSpec{Shape: "p224", Sets: 2, Payer: 1}, c16BaseSpec{Shape: "2of2p224", Sets: 1})
 		specs = append(specs, c16BaseSpec{Shape: "16of16", Sets: 2, Payer: 1}, c16BaseSpec{Shape: "16of16", Sets: 16, Payer: 15})
 	}
-	r.Bound(fmt.Sprintf("%d base transactions, all offsets x 3 byte values (16 sets of 16-of-16: ^1 only); structural alphabet over 2-of-3, mixed 2-of-3, mixed 3-of-4, n=17, 0/16/17 sets", len(specs)))
+	r.Bound(fmt.Sprintf("%d base transactions, all offsets x 3 byte values (16 sets of 16-of-16: ^1 only); structural alphabet over 2-of-3, mixed 2-of-3, mixed 3-of-4, n=17, 0/16/17 sets; per transaction: all object states reachable by {GetSignatureAddresses, VerifyTransaction, observers, re-encode} in any order and number (closure, cap %d states per transaction)", len(specs), c16MaxObjStates))
 
 	item := 0
 	nbytes := 0
@@ -712,6 +728,9 @@ func TestVerif_C16(t *testing.T) {
 		ok, why := c16Oracle(b.Raw)
 		acc, stage, p := c16Accepts(b.Raw)
 		r.Need(ok && acc && p == "", "base transaction %q: oracle=%v(%s) validator=%v(%s) panic=%q", b.Name, ok, why, acc, stage, p)
+		// ... in every state the object can be driven into, and the graph is not trivial
+		bg := c16ExploreObject(b.Raw)
+		r.Need(bg.allAccepted() && bg.hasLabel("addrs") && !bg.Capped && len(bg.OpPanics) == 0, "base transaction %q: object states: %s", b.Name, bg.describe())
 		item++
 		if r.Mine(item) {
 			r.Eval(1)
@@ -731,6 +750,8 @@ func TestVerif_C16(t *testing.T) {
 			acc, _, _ := c16Accepts(st.Raw)
 			ok, why := c16Oracle(st.Raw)
 			r.Need(acc && ok, "structural base %q not accepted: validator=%v oracle=%v(%s)", st.Name, acc, ok, why)
+			bg := c16ExploreObject(st.Raw)
+			r.Need(bg.allAccepted() && bg.hasLabel("addrs"), "structural base %q: object states: %s", st.Name, bg.describe())
 			baseSeen++
 		}
 		if !r.Mine(item) {
